@@ -320,9 +320,32 @@ fn main() {
         cases.extend(worlds::named_cases(RUST_NAMES_MORE, &["all", "package"], "names-extended"));
     }
 
+    // Thorough runs in levels of growing bound and reports the deepest completed one:
+    //   1 = the quick world set with the full configuration factorial, 2 = + the rest of the
+    //   corpus, 3 = + the remaining enumerated worlds, per-position and extended-alphabet worlds.
+    let quick_enum: BTreeSet<&str> = [
+        "types:list", "types:result", "types:record-variant", "types:map", "resource:cross-interface",
+        "limits:params16", "limits:params17", "limits:results", "kebab:multi-word",
+    ]
+    .into_iter()
+    .collect();
+    let quick_corpus: BTreeSet<String> = worlds::corpus_cases().into_iter().enumerate().filter(|(i, _)| i % 4 == 1).map(|(_, c)| c.id).collect();
+    let level_of = |i: usize, c: &Case| -> usize {
+        if !thorough {
+            1
+        } else if i >= n_class_a {
+            3
+        } else if c.family == "corpus" {
+            if quick_corpus.contains(&c.id) { 1 } else { 2 }
+        } else if c.family == "names" || quick_enum.contains(c.id.as_str()) || c.id.ends_with(":my-big-thing2") {
+            1
+        } else {
+            3
+        }
+    };
     let full = RConfig::all();
     let quick = RConfig::quick();
-    let mut work: Vec<(usize, RConfig, &'static str)> = Vec::new();
+    let mut work: Vec<(usize, RConfig, &'static str, usize)> = Vec::new();
     let mut rejected: Vec<Value> = Vec::new();
     for (i, case) in cases.iter().enumerate() {
         if let Err(e) = worlds::load(case) {
@@ -331,11 +354,11 @@ fn main() {
         }
         let cfgs = if thorough && i < n_class_a { &full } else { &quick };
         for cfg in cfgs {
-            work.push((i, cfg.clone(), "2021"));
+            work.push((i, cfg.clone(), "2021", level_of(i, case)));
         }
         if thorough && i < n_class_a {
             for cfg in &quick {
-                work.push((i, cfg.clone(), "2024"));
+                work.push((i, cfg.clone(), "2024", level_of(i, case)));
             }
         }
     }
@@ -345,10 +368,30 @@ fn main() {
     rotate(&mut work, run.seed);
 
     let workers = vcommon::ncpu().min(16);
-    let results = vcommon::par_map(work.len(), workers, |k| {
-        let (i, cfg, ed) = &work[k];
-        evaluate(&tc, &cases[*i], cfg, ed, &scratch.path.join(format!("w{k}")))
-    });
+    let budget_s: f64 = std::env::var("VERIF_BUDGET_S").ok().and_then(|s| s.parse().ok()).unwrap_or(1800.0);
+    let mut results: Vec<Value> = Vec::new();
+    let mut done: Vec<(usize, RConfig, &'static str)> = Vec::new();
+    let mut levels_completed: Vec<Value> = Vec::new();
+    let mut levels_skipped: Vec<Value> = Vec::new();
+    for level in 1..=3usize {
+        let items: Vec<(usize, RConfig, &'static str)> = work.iter().filter(|w| w.3 == level).map(|w| (w.0, w.1.clone(), w.2)).collect();
+        if items.is_empty() {
+            continue;
+        }
+        // a deeper level is only started while less than 40% of the time budget is used
+        if level > 1 && run.elapsed() > 0.4 * budget_s {
+            levels_skipped.push(json!({"level": level, "evaluations": items.len(), "reason": format!("{:.0}s of the {budget_s:.0}s budget used after the previous level", run.elapsed())}));
+            continue;
+        }
+        let r = vcommon::par_map(items.len(), workers, |k| {
+            let (i, cfg, ed) = &items[k];
+            evaluate(&tc, &cases[*i], cfg, ed, &scratch.path.join(format!("l{level}w{k}")))
+        });
+        levels_completed.push(json!({"level": level, "evaluations": items.len(), "elapsed_s": run.elapsed()}));
+        results.extend(r);
+        done.extend(items);
+    }
+    let work = done;
 
     // ---- judge ------------------------------------------------------------------------------
     let mut ok = 0usize;
@@ -433,7 +476,11 @@ fn main() {
         "distinct_nontrivial": nontrivial.len(),
         "rule": "distinct (world, configuration@edition) pairs with at least one import or export for which the generator produced bindings that were handed to rustc (whatever the verdict); `compared_worlds` counts those whose bindings + stubs compiled and whose world was compared (component world after ComponentEncoder, or extracted link names)",
         "compared_worlds": compared.len(),
-        "exhaustive": std::env::var_os("VERIF_LIMIT").is_none(),
+        "exhaustive": std::env::var_os("VERIF_LIMIT").is_none() && levels_skipped.is_empty(),
+        "levels": {"1": "quick world set x full configuration factorial (+ edition 2024 on the quick configurations)", "2": "+ rest of the corpus", "3": "+ remaining enumerated worlds (full factorial), per-position and extended-alphabet name worlds (quick configurations)"},
+        "levels_completed": levels_completed,
+        "levels_skipped_for_time": levels_skipped,
+        "time_budget_s": budget_s,
         "worlds": {"enumerated_full_factorial": n_class_a_enum, "corpus": n_class_a - n_class_a_enum, "corpus_total": corpus_total, "per_position_name_worlds": cases.len() - n_class_a},
         "bounds": {
             "name_alphabet": if thorough { all_names.clone() } else { RUST_NAMES_QUICK.to_vec() },
